@@ -143,7 +143,8 @@ class YamlDocument(HierDictDocument):
         return value
 
     def _ret_bool(self, _, value):
-        if value is None or value in (True, False):
+        # "1 in (True, False)" holds as well, hence the identity tests
+        if value is None or value is True or value is False:
             return value
         raise ValidationError(value)
 
